@@ -839,3 +839,7 @@ mod tests {
         Ok(())
     }
 }
+
+#[cfg(kani)]
+#[path = "/verif/kani/sciparse/routing.rs"]
+mod verif_routing;
